@@ -688,6 +688,13 @@ func finishSprint(res *hx.Result, u *universe, in *sprintInput, obs *sprintObs, 
 				res.Fail(obs.class+":announced-change-rejected-by-readers", in, fmt.Sprintf("%s: %s", where, d))
 			}
 		}
+		// the contact in memory after the engine call is the contact its marshalled form reads back to (channel pointers)
+		if u.affinityDiffers(obs.preC) == "" && (obs.refreshC == nil || u.affinityDiffers(obs.refreshC) == "") {
+			res.OracleChecks++
+			if d := u.affinityDiffers(session.Contact()); d != "" {
+				res.Fail(obs.class+":channel-affinity-differs-from-marshalled-contact", in, fmt.Sprintf("%s: %s", where, d))
+			}
+		}
 		// "replaying the emitted events in order over the contact as it was before ... reproduces exactly the contact
 		//  afterwards"
 		if got := replayAll(obs.pre, eventsJS, inputTime); !sameContact(got, post) {
